@@ -360,6 +360,20 @@ def check_user_callables(ctx, repo):
                         todo.extend(held)
                         continue
                     sites.append((g, c))
+        # the parse context is not made up: a callable that needs raw / offset fails on a pattern and
+        # the size is "unknown"; with a fabricated raw it answers -- a number computed from nothing
+        for g in [f_ for f_ in ci.methods.values() if f_.id in scanned]:
+            kw = g.node.args.kwarg.arg if g.node.args.kwarg else None
+            for c in ast.walk(g.node):
+                fake = None
+                if isinstance(c, ast.Call) and isinstance(c.func, ast.Attribute) and kw and canon(c.func.value) == kw and c.func.attr in ('setdefault', 'update') \
+                        and ((c.args and isinstance(c.args[0], ast.Constant) and c.args[0].value in ('raw',)) or any(k_.arg == 'raw' for k_ in c.keywords)):
+                    fake = c
+                if isinstance(c, ast.Assign) and kw and any(isinstance(t_, ast.Subscript) and canon(t_.value) == kw and isinstance(t_.slice, ast.Constant) and t_.slice.value == 'raw' for t_ in c.targets):
+                    fake = c
+                if fake is not None:
+                    n += 1
+                    ctx.violation(rule, g, '[%s] %s' % (cname, stmt_text(fake)[:80]), 'a made-up input buffer is handed to the user callable while the expression is built: a size that depends on raw / offset is then computed from nothing (a negative or absurd width becomes literal pattern text) instead of being "unknown"', fake.lineno, clause='c', witness=True)
         for fi_, c in sites:
             if True:
                 n += 1
